@@ -798,7 +798,7 @@ def run_size_tight(seed, n, max_count=40, exhaustive=False):
     cases, info = [], []
     grid = []
     if exhaustive:
-        ts = sorted(set([k / 100 for k in range(1, 101)] + [k / 7 for k in range(1, 8)] + [1 / 3, 2 / 3, 0.28]))
+        ts = sorted(set([k / 20 for k in range(1, 21)] + [k / 7 for k in range(1, 8)] + [1 / 3, 2 / 3, 0.28, 0.99, 0.01, 0.57]))
         for m in JCD:
             for t in ts:
                 for a in range(1, max_count + 1):
